@@ -23,7 +23,7 @@ from mc.runner import jdump, pmap
 
 LEVEL = "model_checking"
 RTOL = 1e-8
-MODELS = (("JC69", 0, "constant"), ("HKY", 0, "constant"), ("GTR", 1, "weibull4"))
+MODELS = (("JC69", 0, "constant"), ("HKY", 0, "weibull4_inv"), ("GTR", 1, "weibull4"))
 OPS = ("large", "band", "under", "batch_large_under", "batch_band_large")
 LOG_BAND = -320.0 * math.log(10.0)  # smallest site likelihood ~1e-320 (a few thousand ulps)
 
